@@ -9,6 +9,8 @@ def fmt_name(name, elem=None):
     """Atom name into columns 13-16: one-letter elements start in column 14."""
     if len(name) >= 4:
         return name[:4]
+    if name[:1].isdigit():          # 1HB, 2HG1: the digit sits in column 13
+        return name.ljust(4)
     if elem and len(elem) == 2:
         return name.ljust(4)
     return " " + name.ljust(3)
